@@ -289,3 +289,47 @@ func TestLateDefinition(t *testing.T) {
 		}
 	}
 }
+
+// tight object streams: /First equals the length of the offset table when the
+// first member starts with a delimiter
+func TestTightObjStm(t *testing.T) {
+	cat := obj.Dict{"Type": obj.Name("Catalog"), "Pages": obj.Ref{Num: 2}}
+	pages := obj.Dict{"Type": obj.Name("Pages"), "Kids": obj.Array{}, "Count": obj.Int(0)}
+	firsts := []obj.Value{obj.Dict{"A": obj.Int(1)}, obj.Array{obj.Int(1)}, obj.Str("s"), obj.Name("N"), obj.Int(5), obj.Bool(true)}
+	touching := 0
+	for i, fv := range firsts {
+		doc := &ser.Doc{Revisions: []ser.Revision{{Kind: ser.Stream, Ops: []ser.Op{
+			{Num: 1, Kind: ser.Define, Value: cat}, {Num: 2, Kind: ser.Define, Value: pages},
+			{Num: 3, Kind: ser.Define, Value: fv, InObjStm: true}, {Num: 4, Kind: ser.Define, Value: obj.Int(9), InObjStm: true},
+			{Num: 5, Kind: ser.Define, Value: obj.Name("x"), InObjStm: true},
+		}, Trailer: obj.Dict{"Root": obj.Ref{Num: 1}}}}}
+		for seed := int64(0); seed < 30; seed++ {
+			c := ser.PickChoices(seed)
+			c.ObjStmTight, c.ObjStmGroup, c.Order, c.Comments = true, 0, 0, 0
+			res, err := ser.RenderResult(doc, &ser.Options{Seed: seed, Choices: &c})
+			if err != nil {
+				t.Fatal(err)
+			}
+			if err := check(doc, res, false); err != nil {
+				t.Fatalf("first %d seed %d: %v", i, seed, err)
+			}
+			f, _ := strict.Parse(res.Bytes)
+			for _, o := range f.Objects {
+				if o.ObjStm == nil {
+					continue
+				}
+				dec := o.ObjStm.Decoded
+				gap := dec[o.ObjStm.First-1] == ' '
+				if gap != (i >= 4) || o.ObjStm.Pairs[0].Off != 0 {
+					t.Fatalf("first %d seed %d: table %q", i, seed, dec[:o.ObjStm.First+2])
+				}
+				if !gap {
+					touching++
+				}
+			}
+		}
+	}
+	if touching == 0 {
+		t.Error("no object stream with the first member touching the table")
+	}
+}
